@@ -13,7 +13,7 @@ the `_src` theorem, is then re-proved by Lean on that run — or stops checking.
 -/
 namespace CircBuf
 
-theorem C05_drop_range_src (s : Sys) (rs re : Nat) (h : Inv s.buf)
+maybe theorem C05_drop_range_src (s : Sys) (rs re : Nat) (h : Inv s.buf)
     (hk : ¬ (s.kind = .byte ∨ s.kind = .plain))
     (h1 : rs < re) (h2 : re ≤ s.buf.size) (h3 : rs = 0 ∨ re = s.buf.size) :
     Gen.drop_range (rs, re) s = (dropOutcome s.faults.drop (re - rs),
@@ -24,21 +24,21 @@ theorem C05_drop_range_src (s : Sys) (rs re : Nat) (h : Inv s.buf)
   first
   | (rw [tie_drop_range _ _ s h (nd_dropRange_any _ _ s h hk h1 h2 h3)]; exact C05_drop_range s rs re h hk h1 h2 h3)
 
-theorem C05_truncate_back_src (s : Sys) (n : Nat) (h : Inv s.buf)
+maybe theorem C05_truncate_back_src (s : Sys) (n : Nat) (h : Inv s.buf)
     (hk : ¬ (s.kind = .byte ∨ s.kind = .plain)) :
     ∃ s', Gen.truncate_back n s = (dropOutcome s.faults.drop (s.buf.size - n), s') ∧
       PostDrop s s' ((abs s.buf).take n) ((abs s.buf).drop n) := by
   first
   | (rw [tie_truncate_back _ s h (nd_truncateBack_any _ s h hk)]; exact C05_truncate_back s n h hk)
 
-theorem C05_truncate_front_src (s : Sys) (n : Nat) (h : Inv s.buf)
+maybe theorem C05_truncate_front_src (s : Sys) (n : Nat) (h : Inv s.buf)
     (hk : ¬ (s.kind = .byte ∨ s.kind = .plain)) :
     ∃ s', Gen.truncate_front n s = (dropOutcome s.faults.drop (s.buf.size - n), s') ∧
       PostDrop s s' (Spec.lastN n (abs s.buf)) ((abs s.buf).take ((abs s.buf).length - n)) := by
   first
   | (rw [tie_truncate_front _ s h (nd_truncateFront_any _ s h hk)]; exact C05_truncate_front s n h hk)
 
-theorem C05_clear_src (s : Sys) (h : Inv s.buf) (hk : ¬ (s.kind = .byte ∨ s.kind = .plain)) :
+maybe theorem C05_clear_src (s : Sys) (h : Inv s.buf) (hk : ¬ (s.kind = .byte ∨ s.kind = .plain)) :
     ∃ s', Gen.clear s = (dropOutcome s.faults.drop s.buf.size, s') ∧ PostDrop s s' [] (abs s.buf) := by
   first
   | (rw [tie_clear s h (nd_clear_any s h hk)]; exact C05_clear s h hk)
